@@ -226,7 +226,7 @@ theorem run_cw (s : Sys) (ops : List Op) (hi : MInv s) (h : CW s.c) : CW (run s 
   | cons op ops ih => exact ih _ (step_inv s op hi) (step_cw s op hi h)
 
 theorem reachable_cw (ops : List Op) : CW (run {} ops).c :=
-  run_cw _ ops init_inv ⟨by simp [owners], by simp, by simp⟩
+  run_cw _ ops init_inv ⟨by simp [ownerIds], by simp, by simp⟩
 
 /-- **outstanding wake-ups never outnumber the pending lock operations** -/
 theorem woken_le (ops : List Op) :
@@ -234,7 +234,7 @@ theorem woken_le (ops : List Op) :
   have hi := reachable_inv ops
   have hc := reachable_cw ops
   refine Nat.le_trans hc.length_le ?_
-  have := nodup_subset_length (owners (run {} ops).c.q) ((pendingPolled (run {} ops)).map (·.id)) hc.nq (by
+  have := nodup_subset_length (ownerIds (run {} ops).c.q) ((pendingPolled (run {} ops)).map (·.id)) hc.nq (by
     intro g hg
     have hh : Ev.has (run {} ops).c.q g = true := by
       obtain ⟨e, he, heo⟩ := List.mem_map.mp hg
@@ -244,6 +244,6 @@ theorem woken_le (ops : List Op) :
     simp only [LockSt.waiting, Bool.and_eq_true, Bool.not_eq_true'] at hw
     refine List.mem_map.mpr ⟨fu, ?_, hid⟩
     simp [pendingPolled, hfu, (hi.flags fu hfu).slowPolled hw.1, hw.2])
-  simpa [owners] using this
+  simpa [ownerIds] using this
 
 end ALock.Mutex
